@@ -20,6 +20,9 @@ type affine struct{ A, B *big.Int }
 func affC(v int64) affine { return affine{big.NewInt(0), big.NewInt(v)} }
 
 func (a affine) String() string {
+	if a.A == nil || a.B == nil {
+		return "?"
+	}
 	if a.A.Sign() == 0 {
 		return a.B.String()
 	}
@@ -35,6 +38,13 @@ func goQuoRem(x, m *big.Int) (*big.Int, *big.Int) {
 // evalAffine evaluates an integer term in which len(param:0) is n.
 func evalAffine(t *Term, n affine) (affine, string) {
 	switch t.Op {
+	case "affine":
+		parts := strings.SplitN(t.Name, "/", 2)
+		A, ok1 := new(big.Int).SetString(parts[0], 10)
+		B, ok2 := new(big.Int).SetString(parts[1], 10)
+		if ok1 && ok2 {
+			return affine{A, B}, ""
+		}
 	case "const":
 		v, ok := new(big.Int).SetString(t.Name, 10)
 		if !ok {
@@ -328,6 +338,16 @@ func c20(p *Prog, r *Report) {
 
 // c20Unpad: the inductive backward-scan rule.
 func c20Unpad(p *Prog, r *Report, rule string, fn *ssa.Function) {
+	// bytes.TrimRight(p, "\x00") strips exactly the trailing zero bytes (documented contract)
+	if t := p.NewSym(fn).returnTerm(); t != nil {
+		switch t.String() {
+		case `conv<string>(call<bytes.TrimRight>(param:0, lit:"\x00"))`, `call<bytes.TrimRight>(param:0, lit:"\x00")`, `call<strings.TrimRight>(conv<string>(param:0), lit:"\x00")`, `call<strings.TrimRight>(param:0, lit:"\x00")`:
+			for _, k := range []string{"scan starts at the last byte", "the scan continues only over zero bytes", "results: prefix ending at the non-zero byte found, or \"\" when the scan passed the first byte", "scan indices stay within the input"} {
+				r.OK(rule, k, p.Pos(fn.Pos()), "library trim of trailing zero bytes: "+t.String())
+			}
+			return
+		}
+	}
 	rg := p.NewRange(fn)
 	prm := fn.Params[0]
 	// the scan variable: a phi j with a back edge j-1
@@ -518,15 +538,30 @@ func isZeroConst(v ssa.Value) bool {
 
 // c20Pad: padOriginName = name || zeros with total length 32*max(1, ceil(n/32)).
 func c20Pad(p *Prog, r *Report, R1 string, pad *ssa.Function) {
-	t := p.NewSym(pad).returnTerm()
+	sym := p.NewSym(pad)
+	t := sym.returnTerm()
+	if t == nil {
+		t = T("unknown", "no single return term")
+	}
 	r.Note("%s", "padOriginName returns "+t.String())
+	// the fresh buffer(s) of the function: their length is evaluated on SSA, so
+	// that a size chosen by a branch (if blocks == 0 { blocks = 1 }, max(1, ..))
+	// is decided per residue class as well
+	var makes []*ssa.MakeSlice
+	for _, b := range pad.Blocks {
+		for _, in := range b.Instrs {
+			if ms, ok := in.(*ssa.MakeSlice); ok {
+				makes = append(makes, ms)
+			}
+		}
+	}
 	var total func(n affine) (affine, string)
 	contentOK := false
 	switch {
-	case t.Op == "cat" && len(t.Args) == 2 && t.Args[0].String() == "param:0" && t.Args[1].Op == "make" && len(t.Args[1].Args) == 1:
+	case len(makes) == 1 && t.Op == "cat" && len(t.Args) == 2 && t.Args[0].String() == "param:0" && t.Args[1].Op == "make" && len(t.Args[1].Args) == 1:
 		contentOK = true // name || zero-filled make
 		total = func(n affine) (affine, string) {
-			e, why := evalAffine(t.Args[1].Args[0], n)
+			e, why := evalAffineV(sym, makes[0].Len, n, 0)
 			if why != "" {
 				return affine{}, why
 			}
@@ -535,10 +570,10 @@ func c20Pad(p *Prog, r *Report, R1 string, pad *ssa.Function) {
 			}
 			return affine{new(big.Int).Add(n.A, e.A), new(big.Int).Add(n.B, e.B)}, ""
 		}
-	case t.Op == "make" && len(t.Args) == 2 && t.Args[1].String() == "copy(param:0)":
+	case len(makes) == 1 && t.Op == "make" && len(t.Args) == 2 && t.Args[1].String() == "copy(param:0)":
 		contentOK = true // zero-filled buffer with the name copied to its head; total >= n checked below
 		total = func(n affine) (affine, string) {
-			l, why := evalAffine(t.Args[0], n)
+			l, why := evalAffineV(sym, makes[0].Len, n, 0)
 			if why != "" {
 				return affine{}, why
 			}
@@ -564,4 +599,211 @@ func c20Pad(p *Prog, r *Report, R1 string, pad *ssa.Function) {
 			r.Check(ok, R1, fmt.Sprintf("n = 32q+%d: padded length 32q+32", res), p.Pos(pad.Pos()), "32q+32", fmt.Sprintf("padded length for names of length 32q+%d is %s %s, required 32q+32 (the number of 32-byte blocks needed)", res, got, why))
 		}
 	}
+}
+
+// evalAffineV evaluates an integer SSA value of padOriginName in the
+// affine-in-q domain (len(name) = n). A phi is resolved by deciding the branch
+// facts of its incoming edges in the same domain; it has a value only if
+// exactly one edge is feasible, or all feasible edges agree.
+func evalAffineV(s *Sym, v ssa.Value, n affine, depth int) (affine, string) {
+	if depth > 24 {
+		return affine{}, "expression too deep"
+	}
+	bin := func(op string, x, y affine) (affine, string) {
+		return evalAffine(T("bin", op, affTerm(x), affTerm(y)), n)
+	}
+	switch x := v.(type) {
+	case *ssa.Const:
+		return evalAffine(s.Of(x), n)
+	case *ssa.Convert:
+		return evalAffineV(s, x.X, n, depth+1)
+	case *ssa.ChangeType:
+		return evalAffineV(s, x.X, n, depth+1)
+	case *ssa.Call:
+		if b, ok := x.Call.Value.(*ssa.Builtin); ok {
+			switch b.Name() {
+			case "len":
+				if s.Of(x.Call.Args[0]).String() == "param:0" {
+					return n, ""
+				}
+			case "max", "min":
+				var best affine
+				for i, a := range x.Call.Args {
+					av, why := evalAffineV(s, a, n, depth+1)
+					if why != "" {
+						return affine{}, why
+					}
+					if i == 0 {
+						best = av
+						continue
+					}
+					c, ok := affCmp(av, best)
+					if !ok {
+						return affine{}, "max/min of incomparable terms"
+					}
+					if (b.Name() == "max" && c > 0) || (b.Name() == "min" && c < 0) {
+						best = av
+					}
+				}
+				return best, ""
+			}
+		}
+		return affine{}, "call outside the affine domain: " + clip(s.Of(x).String(), 80)
+	case *ssa.BinOp:
+		a, why := evalAffineV(s, x.X, n, depth+1)
+		if why != "" {
+			return affine{}, why
+		}
+		b, why := evalAffineV(s, x.Y, n, depth+1)
+		if why != "" {
+			return affine{}, why
+		}
+		switch x.Op {
+		case token.ADD:
+			return bin("+", a, b)
+		case token.SUB:
+			return bin("-", a, b)
+		case token.MUL:
+			return bin("*", a, b)
+		case token.QUO:
+			return bin("/", a, b)
+		case token.REM:
+			return bin("%", a, b)
+		case token.AND:
+			return bin("&", a, b)
+		case token.SHL, token.SHR:
+			if b.A.Sign() == 0 && b.B.Sign() >= 0 && b.B.Cmp(big.NewInt(31)) < 0 {
+				pw := affine{big.NewInt(0), new(big.Int).Lsh(big.NewInt(1), uint(b.B.Int64()))}
+				if x.Op == token.SHL {
+					return bin("*", a, pw)
+				}
+				return bin("/", a, pw)
+			}
+		}
+		return affine{}, "operator " + x.Op.String() + " outside the affine domain"
+	case *ssa.Phi:
+		var res *affine
+		blk := x.Block()
+		for i, e := range x.Edges {
+			feasible := true
+			for _, f := range s.ff.AtEdge(blk.Preds[i], blk) {
+				tv, known := affTruth(s, f, n, depth+1)
+				if known && !tv {
+					feasible = false
+				}
+			}
+			if !feasible {
+				continue
+			}
+			ev, why := evalAffineV(s, e, n, depth+1)
+			if why != "" {
+				return affine{}, why
+			}
+			if res == nil {
+				r := ev
+				res = &r
+			} else if res.A.Cmp(ev.A) != 0 || res.B.Cmp(ev.B) != 0 {
+				return affine{}, "the size depends on a branch that the length does not decide"
+			}
+		}
+		if res == nil {
+			return affine{}, "no feasible definition of the size"
+		}
+		return *res, ""
+	}
+	return affine{}, fmt.Sprintf("%T outside the affine domain", v)
+}
+
+func affTerm(a affine) *Term {
+	if a.A.Sign() == 0 {
+		return T("const", a.B.String())
+	}
+	return T("affine", a.A.String()+"/"+a.B.String())
+}
+
+// affCmp compares A1 q + B1 with A2 q + B2 for all q >= 0: -1, 0, 1, or
+// undecided.
+func affCmp(x, y affine) (int, bool) {
+	dA, dB := new(big.Int).Sub(x.A, y.A), new(big.Int).Sub(x.B, y.B)
+	switch {
+	case dA.Sign() == 0:
+		return dB.Sign(), true
+	case dA.Sign() > 0 && dB.Sign() > 0:
+		return 1, true
+	case dA.Sign() < 0 && dB.Sign() < 0:
+		return -1, true
+	case dA.Sign() > 0 && dB.Sign() == 0, dA.Sign() < 0 && dB.Sign() == 0:
+		return 0, false // equal at q = 0 only
+	}
+	return 0, false
+}
+
+// affTruth decides a branch fact (a comparison of two affine values) for all
+// q >= 0; known=false when it is not decided.
+func affTruth(s *Sym, f Atom, n affine, depth int) (truth, known bool) {
+	if f.Kind != Truth {
+		return false, false
+	}
+	bo, ok := f.V.(*ssa.BinOp)
+	if !ok {
+		return false, false
+	}
+	a, w1 := evalAffineV(s, bo.X, n, depth+1)
+	b, w2 := evalAffineV(s, bo.Y, n, depth+1)
+	if w1 != "" || w2 != "" {
+		return false, false
+	}
+	dA, dB := new(big.Int).Sub(a.A, b.A), new(big.Int).Sub(a.B, b.B)
+	// sign of d(q) = dA q + dB over q >= 0
+	alwaysPos := dA.Sign() >= 0 && dB.Sign() > 0
+	alwaysNeg := dA.Sign() <= 0 && dB.Sign() < 0
+	alwaysZero := dA.Sign() == 0 && dB.Sign() == 0
+	nonNeg := dA.Sign() >= 0 && dB.Sign() >= 0
+	nonPos := dA.Sign() <= 0 && dB.Sign() <= 0
+	var v, k bool
+	switch bo.Op {
+	case token.EQL:
+		if alwaysZero {
+			v, k = true, true
+		} else if alwaysPos || alwaysNeg {
+			v, k = false, true
+		}
+	case token.NEQ:
+		if alwaysZero {
+			v, k = false, true
+		} else if alwaysPos || alwaysNeg {
+			v, k = true, true
+		}
+	case token.LSS:
+		if alwaysNeg {
+			v, k = true, true
+		} else if nonNeg {
+			v, k = false, true
+		}
+	case token.LEQ:
+		if nonPos {
+			v, k = true, true
+		} else if alwaysPos {
+			v, k = false, true
+		}
+	case token.GTR:
+		if alwaysPos {
+			v, k = true, true
+		} else if nonPos {
+			v, k = false, true
+		}
+	case token.GEQ:
+		if nonNeg {
+			v, k = true, true
+		} else if alwaysNeg {
+			v, k = false, true
+		}
+	}
+	if !k {
+		return false, false
+	}
+	if !f.Pol {
+		v = !v
+	}
+	return v, true
 }
